@@ -21,6 +21,10 @@ const (
 	TypeInterval
 )
 
+// typeInvalid is what the text readers report for an element whose type name is unknown.
+// It is not a valid TTLV type: every typed getter rejects it with an encoding error.
+const typeInvalid Type = 0xFF
+
 func (ty Type) String() string {
 	if n, ok := typesName[ty]; ok {
 		return n
